@@ -264,7 +264,11 @@ inline void LidarDriverImpl<T_PointCloud>::stop()
 template <typename T_PointCloud>
 inline void LidarDriverImpl<T_PointCloud>::decodePacket(const Packet& pkt)
 {
-  cb_feed_pkt_(pkt.buf_.data(), pkt.buf_.size());
+  // only a RAW_PACKET input installs the feeding function, and only init() creates the input.
+  if (cb_feed_pkt_)
+  {
+    cb_feed_pkt_(pkt.buf_.data(), pkt.buf_.size());
+  }
 }
 
 template <typename T_PointCloud>
